@@ -25,6 +25,10 @@ def opsCli (op : String) (args : List SExp) : Option String :=
       pure (match selectPacket (List.range ((7 * n - c) / 7)) i with
         | some k => s!"shown {k}"
         | none => "out-of-range")
+  | "parseshort", [_n] =>
+      -- `spp parse` on a well-framed file whose packets are shorter than the definition describes: whatever is printed,
+      -- the command ends without a traceback
+      some "no-traceback"
   | _, _ => none
 
 end Driver
